@@ -562,6 +562,18 @@ def check(run):
         facts, facts_out = model_facts()
     run.notes["model_side_conditions"] = facts
 
+    if thorough and pr["make_ok"]:
+        p = subprocess.run(["timeout", "1200", "coqchk", "-silent", "-o", "-Q", "theories", "SqlV", "-Q", "gen", "SqlVGen",
+                            "-Q", "Properties", "SqlVProps", "SqlVProps.C18"], cwd=COQ,
+                           stdout=subprocess.PIPE, stderr=subprocess.STDOUT, text=True)
+        summary = p.stdout[p.stdout.find("CONTEXT SUMMARY"):] if "CONTEXT SUMMARY" in p.stdout else p.stdout[-1500:]
+        clean = p.returncode == 0 and "Axioms: <none>" in re.sub(r"\s+", " ", summary)
+        run.notes["coqchk"] = {"exit": p.returncode, "clean": clean, "summary": re.sub(r"\s+", " ", summary)[:500]}
+        log("[coq] coqchk SqlVProps.C18 -> %d, clean=%s" % (p.returncode, clean))
+        if not clean:
+            run.violation({"what": "coqchk does not accept the compiled closure of Properties/C18.vo as axiom-free",
+                           "unchecked": "coqchk -o SqlVProps.C18", "tool_output": p.stdout[-2000:]}, no_input=True)
+
     D = dynamic(run, tr, sh, thorough)
     corr = None
     if facts is not None:
@@ -584,14 +596,17 @@ def check_pins(run, tr):
 
 
 def model_facts():
-    term = ("(family_consistent dt_tables, bad_print_rows dt_tables, bad_parse_rows dt_tables, length dt_obligations)")
+    term = ("(family_consistent dt_tables, bad_print_rows dt_tables, bad_parse_rows dt_tables, length dt_obligations, "
+            "(irregular_ok dt_tables, kws_disjoint dt_tables, bad_irregular dt_tables))")
     rc, out = coq_eval(HEADER, term)
     if rc != 0:
         return None, out
     from props.C19 import parse_coq_value, nstr
     v = parse_coq_value(out)
     return {"family_consistent": v[0] == "true", "bad_print_rows": [nstr(x) for x in v[1]],
-            "bad_parse_rows": [nstr(x) for x in v[2]], "obligations": v[3]}, out
+            "bad_parse_rows": [nstr(x) for x in v[2]], "obligations": v[3],
+            "irregular_ok": v[4][0] == "true", "kws_disjoint": v[4][1] == "true",
+            "bad_irregular": ["%s/%s" % (nstr(x[0]), nstr(x[1])) for x in v[4][2]]}, out
 
 
 def dynamic(run, tr, sh, thorough):
@@ -832,6 +847,7 @@ def correspondence(run, tr, sh, D, thorough):
     skipped = collections.Counter()
     budget = {"deep": 2500 if thorough else 300, "depth3": 6000 if thorough else 1200}
     used = collections.Counter()
+    n_print = 0
     for v, tag, ref, r in D["obs"]:
         if tag in budget:
             used[tag] += 1
@@ -902,6 +918,7 @@ def correspondence(run, tr, sh, D, thorough):
             # (e.g. `[` opening a quoted identifier in MsSql/SQLite/Redshift, `"` a string in MySQL/BigQuery...)
             # is not a printer matter, so print-checking is limited to values without brackets/quotes there
             pc = chk_print and not any(k == "ident" and p[0] is not None for k, p in strs) and "[" not in r["text"]
+            n_print += 1 if pc else 0
             terms.append("(%s, %s, [%s])" % (vt, coq_bool(pc), ";\n     ".join(groups)))
             meta.append((v, tag, r["text"]))
     header = HEADER + CASE_DEFS
@@ -912,7 +929,7 @@ def correspondence(run, tr, sh, D, thorough):
                        "tool_output": str(e)[-2500:]}, no_input=True)
         return None
     run.notes["correspondence"] = {"values": len(terms), "disagreements": len(bad), "skipped": dict(skipped),
-                                   "print_checked": sum(1 for t in terms if ", true, [" in t[:4000])}
+                                   "print_checked": n_print}
     return [meta[i] for i in bad]
 
 
@@ -942,20 +959,24 @@ def decide(run, tr, sh, pr, facts, facts_out, D, corr, pins):
         c = ctor_of(f["value"])
         return (0 if c in bad_ctors else 1, len(jd(f["value"])), DIALECTS.index(f["dialect"]) if f["dialect"] in DIALECTS else 0)
     seen = set()
+    CALLS = {"sa": "Parser::parse_data_type", "cast": "SELECT CAST(x AS <type>)", "col": "CREATE TABLE t (c <type>)", "Display": "DataType::to_string"}
     for f in sorted(unknown, key=rank):
-        key = (ctor_of(f["value"]), f["kind"], f["context"])
+        key = (ctor_of(f["value"]), f["kind"])
         if key in seen or len(seen) >= MAX_REPORTS:
             continue
         seen.add(key)
+        same_value = [g for g in unknown if jd(g["value"]) == jd(f["value"]) and g["kind"] == f["kind"]]
         run.violation({
             "what": {"certified-value-changed": "a data type value the parser produces prints to SQL that parses back to a different value",
                      "certified-value-rejected": "a data type value the parser produces prints to SQL that does not parse as a data type in this context",
                      "parsed-value-not-a-fixpoint": "the value obtained by parsing a printed data type does not itself survive print -> parse",
                      "panic": "printing or parsing a data type panicked", "display-panic": "Display of a data type value panicked"}[f["kind"]],
-            "call": {"sa": "Parser::parse_data_type", "cast": "SELECT CAST(x AS <type>)", "col": "CREATE TABLE t (c <type>)", "Display": "DataType::to_string"}[f["context"]],
+            "call": CALLS[f["context"]],
+            "fails_in_contexts": sorted({CALLS[g["context"]] for g in same_value}),
+            "fails_under_dialects": sorted({g["dialect"] for g in same_value if g["dialect"]}),
             "dialect": f["dialect"], "value": f["value"], "input": f.get("text"), "reference_text": f.get("ref_text"),
             "corpus_sql": f.get("corpus_sql"), "expected": "the identical value", "observed": f["observed"],
-            "constructor": ctor_of(f["value"]), "same_failure_cases": sum(1 for g in unknown if (ctor_of(g["value"]), g["kind"], g["context"]) == key)})
+            "constructor": ctor_of(f["value"]), "same_failure_cases": sum(1 for g in unknown if (ctor_of(g["value"]), g["kind"]) == key)})
     run.notes["implementation_failures"] = {"unknown": len(unknown), "known": sum(len(v) for v in hits.values())}
 
     if not static_ok:
@@ -965,7 +986,13 @@ def decide(run, tr, sh, pr, facts, facts_out, D, corr, pins):
         else:
             if not facts["family_consistent"]:
                 hit = [f for f in unknown if ctor_of(f["value"]) in bad_ctors]
-                if not hit:
+                if (not facts["irregular_ok"] or not facts["kws_disjoint"]) and not unknown:
+                    run.violation({"what": "the hand-modelled arms are not where the model expects them: for (dialect/keyword) %s the keyword match "
+                                           "reaches another arm (a dialect gate was added, removed or reordered), or a family keyword became a "
+                                           "keyword continuation" % facts["bad_irregular"],
+                                   "unchecked": "c18_family_consistent: irregular_ok / kws_disjoint (C18_angle_bookkeeping, C18_round_trip_partial)",
+                                   "dialect_keyword": facts["bad_irregular"]}, no_input=True)
+                if not hit and bad_ctors:
                     run.violation({"what": "the Display spelling and the parser arm of constructors %s no longer agree (family_consistent fails), "
                                            "but no enumerated value of these constructors fails the round trip: the constructor is no longer "
                                            "producible by the parser or its spelling now belongs to a neighbour" % sorted(bad_ctors),
